@@ -215,8 +215,13 @@ def unlocked(ctx, rid="C16.unlocked"):
         for c in cbs:
             p = path(f, f.s(c["args"][0]))
             ok = p is not None and p.startswith("l:")
-            ctx.ob(rid, ok, f.loc(c), "the callback invoked outside the lock is a local copy (not the shared member)",
-                   "" if ok else "invokes %s" % p, fn=f.label, inst=f.qname)
+            if not ok and p and p.startswith("this."):
+                from ..guards import written_after_construction
+                w = written_after_construction(ctx.fb, ctx.eng, f.rec, p[5:])
+                ok = not w
+                p = "%s, which is written at %s" % (p, w[0]) if w else p
+            ctx.ob(rid, ok, f.loc(c), "the callback invoked outside the lock is a local copy, or a member nobody writes after "
+                   "construction", "" if ok else "invokes %s" % p, fn=f.label, inst=f.qname)
         # release points of the keep-alive vector
         n_rel = 0
         for pos in f.positions():
